@@ -26,7 +26,7 @@ import random
 import time
 
 from .. import gen, views
-from ..c12_common import quiet, canon, flat_obs, diff_obs, fmt_diff, decorate, sample_meta
+from ..c12_common import quiet, canon, flat_obs, diff_obs, fmt_diff, decorate, sample_meta, run_tasks
 
 KNOWN_KEYS = set()
 
@@ -413,7 +413,10 @@ def case_static(mseed, ctx, kind):
     """A1-A3 -> {key: text}"""
     fails = {}
     m = build(mseed, ctx)
-    c = _do_copy(kind, m)
+    try:
+        c = _do_copy(kind, m)
+    except Exception as e:  # noqa
+        return {f"{kind}:raised": f"copying raised {e!r}"}
     # A1
     d = diff_obs(flat_obs(m), flat_obs(c), equivalence=True)
     for x in d:
@@ -478,7 +481,10 @@ def _exit_check(kind, m, c, what):
 def case_edit(mseed, ctx, kind, side, names, eseed):
     """A4 -> ({key: text}, nontrivial?, outcomes)"""
     m = build(mseed, ctx)
-    c = _do_copy(kind, m)
+    try:
+        c = _do_copy(kind, m)
+    except Exception as e:  # noqa
+        return {f"{kind}:raised": f"copying raised {e!r}"}, False, []
     edited, other = (c, m) if side == "copy" else (m, c)
     before = flat_obs(other)
     mine = flat_obs(edited, with_opt=False)
@@ -583,18 +589,31 @@ def case_reaction(mseed, mode, op, i, j):
             changed = True
             parts = [k for k in a if a[k] != b[k]]
             detail = ""
-            if "metabolites" in parts:
+            only_listing = False
+            if parts == ["metabolites"] and n is not None:
+                # is the only change that metabolites of the operand now list the RESULT among their reactions?
                 da = dict((t[0], t) for t in a["metabolites"])
+                only_listing = True
                 for t in b["metabolites"]:
-                    if da.get(t[0]) != t:
-                        detail = f" e.g. metabolite {t[0]}: reactions {[y[0] for y in da[t[0]][3]] if t[0] in da else None} -> {[y[0] for y in t[3]]}"
-                        break
-            fails[f"{name}:operand-changed"] = f"{op} ({mode}) changed operand {x.id} in {parts}{detail}"
+                    o = da.get(t[0])
+                    if o == t:
+                        continue
+                    if o is None or o[:3] + o[4:] != t[:3] + t[4:] or set(t[3]) - set(o[3]) != {(n.id, id(n))} or set(o[3]) - set(t[3]):
+                        only_listing = False
+                    detail = f" e.g. metabolite {t[0]}: reactions {[y[0] for y in o[3]] if o else None} -> {[y[0] for y in t[3]]}"
+            if only_listing:
+                # DESIGN section 9 #16: one root cause for +, sum() and - (Reaction.add_metabolites on a model-less reaction
+                # adopts the operand's Metabolite object)
+                fails["reaction.arithmetic:result-shares-operand-metabolites"] = \
+                    f"{op} ({mode}) on {[y.id for y in operands]}: the result uses Metabolite objects of operand {x.id}, whose " \
+                    f"metabolites now list the result among their reactions;{detail}"
+            else:
+                fails[f"{name}:operand-changed:" + "+".join(parts)] = f"{op} ({mode}) changed operand {x.id} in {parts}{detail}"
     if model is not None:
         d = diff_obs(mb, flat_obs(model))
         if d:
             changed = True
-            fails[f"{name}:operand-changed"] = f"{op} ({mode}) changed the operands' model: {fmt_diff(d)}"
+            fails[f"{name}:operand-changed:model"] = f"{op} ({mode}) changed the operands' model: {fmt_diff(d)}"
     if n is None:
         return fails, {}
     # detached
@@ -717,10 +736,6 @@ def _run_task(task):
     raise ValueError(t)
 
 
-def _run_chunk(tasks):
-    return [_run_task(t) for t in tasks]
-
-
 def tasks_for(tier, seed):
     rng = random.Random(f"C12-run-{seed}")
     n_models = 4 if tier == "quick" else 24
@@ -761,10 +776,13 @@ def run(tier="quick", seed=0):
     tasks = tasks_for(tier, seed)
     order = list(range(len(tasks)))
     random.Random(seed).shuffle(order)
-    nchunks = 64 if tier == "quick" else 256
-    chunks = [[tasks[i] for i in order[k::nchunks]] for k in range(nchunks)]
-    with mp.get_context("fork").Pool(16) as pool:
-        results = [x for ch in pool.map(_run_chunk, chunks, chunksize=1) for x in ch]
+    shuffled = [tasks[i] for i in order]
+    results = []
+    for task, (status, val) in zip(shuffled, run_tasks(_run_task, shuffled, nproc=16, task_timeout=300 if tier == "quick" else 900)):
+        if status == "ok":
+            results.append(val)
+        else:  # the worker process died / hung / raised outside the guarded part: a finding, not a harness hiccup
+            results.append((task, {f"{task.get('kind') or 'reaction'}:{status}": f"task {task} ended with {status}: {val}"}, False))
     failures = {}
     counts = {}
     distinct = set()
